@@ -183,4 +183,16 @@ def fromBuffer (cfg : BufCfg) (t : ElemTy) (src : Src) : Except FromErr (List Na
     | none => .error .oobRead
     | some bytes => .ok (bytes ++ List.replicate (allocBytes - bytes.length) 0)
 
+
+/-- **the view `getbuffer` hands out**, as a PEP-3118 view INTO the array's storage: `mem` is the storage block (bytes),
+    `off` the byte offset of the array's first element (`_ptr`), `length` / `stride` the array's `_length` / `_stride`
+    (a component array `.y` of a `V3fArray` has `off = 4`, `stride = 3`) -/
+def exportView (cfg : BufCfg) (t : ElemTy) (length stride : Nat) (mem : List Nat) (off : Nat) : Src :=
+  let b := getbuffer cfg t length stride
+  ⟨[t.format], b.itemsize, b.shape, b.strides.map Int.ofNat, mem, off, b.len⟩
+
+/-- what a consumer reads through the exported view (`memoryview(a).tobytes()`) -/
+def exportBytes (cfg : BufCfg) (t : ElemTy) (length stride : Nat) (mem : List Nat) (off : Nat) : Option (List Nat) :=
+  (exportView cfg t length stride mem off).logicalBytes
+
 end ImathVerif.BufferProtocol
